@@ -22,7 +22,10 @@ CTX = Ctx()
 
 class Op:
     def __init__(self, name, args, ret, expr, oracle, cls='ui', props=(), pre=None, lane_pre=None, cmp='bits',
-                 consts=None, scalar=None, widths=None, tier='quick', note='', rm='sym'):
+                 consts=None, scalar=None, widths=None, tier='quick', note='', rm='sym', alt=None, only_types=None, dst=None):
+        self.only_types = only_types
+        self.dst = dst
+        self.alt = alt          # (predicate on T, alternative oracle): the obligation is discharged when either oracle is matched
         self.rm = rm
         self.name = name
         self.args = args
@@ -159,8 +162,60 @@ def div_ok(T, a, b):
     return c
 
 
+def ref_longdiv(a, b, w):
+    """REF: textbook shift-subtract long division written directly in bit-vector terms (quotient, remainder).
+    Proved equal to bvudiv/bvurem by the solver for w = 8 and 16 and for 32-bit slices (lemma obligations of C05);
+    used as the oracle for 32/64-bit SIMD lanes, where impl == bvudiv is beyond every back end (DESIGN.md section 4)."""
+    x = a
+    q = 0
+    for i in reversed(range(w)):
+        t = sym.lshr(x, i, w)
+        c = sym.uge(t, b, w)
+        x = sym.sub(x, sym.ite(c, sym.shl(b, i, w), 0, w), w)
+        q = sym.or_(q, sym.ite(c, 1 << i, 0, w), w)
+    return q, x
+
+
+def use_ref(T):
+    return T.bits >= 32 and T.n > 1
+
+
+def ref_signed(T, a, b):
+    w = T.bits
+    na, nb_ = sym.slt(a, 0, w), sym.slt(b, 0, w)
+    ua = sym.ite(na, sym.neg(a, w), a, w)
+    ub = sym.ite(nb_, sym.neg(b, w), b, w)
+    q, r = ref_longdiv(ua, ub, w)
+    neg_q = sym.b_ite(na, b_not(nb_), nb_)
+    return sym.ite(neg_q, sym.neg(q, w), q, w), sym.ite(na, sym.neg(r, w), r, w)
+
+
 def o_quot(T, a, b): return sym.sdiv(a, b, T.bits) if T.signed else sym.udiv(a, b, T.bits)
 def o_rem(T, a, b): return sym.srem(a, b, T.bits) if T.signed else sym.urem(a, b, T.bits)
+
+
+def sm_div(T, a, b):
+    """signed division written as unsigned division of the magnitudes plus sign fix-up (the same function as bvsdiv/bvsrem)"""
+    w = T.bits
+    na, nb_ = sym.slt(a, 0, w), sym.slt(b, 0, w)
+    ua = sym.ite(na, sym.neg(a, w), a, w)
+    ub = sym.ite(nb_, sym.neg(b, w), b, w)
+    q, r = sym.udiv(ua, ub, w), sym.urem(ua, ub, w)
+    neg_q = sym.b_ite(na, b_not(nb_), nb_)
+    return sym.ite(neg_q, sym.neg(q, w), q, w), sym.ite(na, sym.neg(r, w), r, w)
+
+
+def o_quot_sm(T, a, b): return sm_div(T, a, b)[0]
+def o_rem_sm(T, a, b): return sm_div(T, a, b)[1]
+def is_signed(T): return T.signed
+
+
+def o_quot_ref(T, a, b):
+    return ref_signed(T, a, b)[0] if T.signed else ref_longdiv(a, b, T.bits)[0]
+
+
+def o_rem_ref(T, a, b):
+    return ref_signed(T, a, b)[1] if T.signed else ref_longdiv(a, b, T.bits)[1]
 
 
 def o_popcount(T, a): return sym.popcount(a, T.bits)
@@ -537,6 +592,7 @@ A = 'uif'
 amt_pre = lambda T, a, s: [amt64_ok(T, s)]
 vamt_pre = lambda T, a, s: [sym.ule(x, T.bits, T.bits) for x in s]
 div_lp = lambda T, i, a, b: div_ok(T, a[i], b[i])
+amt_pre.__name__, vamt_pre.__name__, div_lp.__name__ = 'amt_pre', 'vamt_pre', 'div_lp'
 
 # ---- C01
 op('add', 'vv', 'v', '{0} + {1}', lw(o_add), I, ['C01'])
@@ -612,12 +668,12 @@ op('rotl_v', 'vv', 'v', 'avel::rotl({0}, {1})', lw(o_rotl_v), I, ['C04'])
 op('rotr_v', 'vv', 'v', 'avel::rotr({0}, {1})', lw(o_rotr_v), I, ['C04'])
 
 # ---- C05
-op('div_quot', 'vv', 'v', 'avel::div({0}, {1}).quot', lw(o_quot), I, ['C05'], lane_pre=div_lp)
-op('div_rem', 'vv', 'v', 'avel::div({0}, {1}).rem', lw(o_rem), I, ['C05'], lane_pre=div_lp)
-op('quot', 'vv', 'v', '{0} / {1}', lw(o_quot), I, ['C05'], lane_pre=div_lp)
-op('rem', 'vv', 'v', '{0} % {1}', lw(o_rem), I, ['C05'], lane_pre=div_lp)
-op('quot_assign', 'vv', 'v', 'vf::div_assign({0}, {1})', lw(o_quot), I, ['C05'], lane_pre=div_lp)
-op('rem_assign', 'vv', 'v', 'vf::rem_assign({0}, {1})', lw(o_rem), I, ['C05'], lane_pre=div_lp)
+op('div_quot', 'vv', 'v', 'avel::div({0}, {1}).quot', lw(o_quot), I, ['C05'], lane_pre=div_lp, alt=[(use_ref, lw(o_quot_ref)), (is_signed, lw(o_quot_sm))])
+op('div_rem', 'vv', 'v', 'avel::div({0}, {1}).rem', lw(o_rem), I, ['C05'], lane_pre=div_lp, alt=[(use_ref, lw(o_rem_ref)), (is_signed, lw(o_rem_sm))])
+op('quot', 'vv', 'v', '{0} / {1}', lw(o_quot), I, ['C05'], lane_pre=div_lp, alt=[(use_ref, lw(o_quot_ref)), (is_signed, lw(o_quot_sm))], tier='thorough')
+op('rem', 'vv', 'v', '{0} % {1}', lw(o_rem), I, ['C05'], lane_pre=div_lp, alt=[(use_ref, lw(o_rem_ref)), (is_signed, lw(o_rem_sm))], tier='thorough')
+op('quot_assign', 'vv', 'v', 'vf::div_assign({0}, {1})', lw(o_quot), I, ['C05'], lane_pre=div_lp, alt=[(use_ref, lw(o_quot_ref)), (is_signed, lw(o_quot_sm))], tier='thorough')
+op('rem_assign', 'vv', 'v', 'vf::rem_assign({0}, {1})', lw(o_rem), I, ['C05'], lane_pre=div_lp, alt=[(use_ref, lw(o_rem_ref)), (is_signed, lw(o_rem_sm))], tier='thorough')
 
 # ---- C06
 for nm, f in (('popcount', o_popcount), ('byteswap', o_byteswap), ('countl_zero', o_clz), ('countl_one', o_clo),
@@ -649,6 +705,7 @@ op('midpoint', 'vv', 'v', 'avel::midpoint({0}, {1})', lw(o_midpoint), I, ['C07',
 op('copysign', 'vv', 'v', 'avel::copysign({0}, {1})', lw(o_copysign), F, ['C07', 'C16'], scalar='avel::copysign({0}, {1})')
 nn2 = lambda T, i, a, b: nonnan(T, a[i], b[i])
 nn3 = lambda T, i, a, b, c: b_and(nonnan(T, a[i], b[i], c[i]), lt(T, b[i], c[i]))
+nn2.__name__, nn3.__name__ = 'nn2', 'nn3'
 op('fmin_v', 'vv', 'v', 'avel::min({0}, {1})', lw(o_fmin), F, ['C07', 'C16'], lane_pre=nn2, cmp='oneof', scalar='avel::min({0}, {1})')
 op('fmax_v', 'vv', 'v', 'avel::max({0}, {1})', lw(o_fmax), F, ['C07', 'C16'], lane_pre=nn2, cmp='oneof', scalar='avel::max({0}, {1})')
 op('fminmax0', 'vv', 'v', 'avel::minmax({0}, {1})[0]', lw(o_fmin), F, ['C07'], lane_pre=nn2, cmp='oneof')
@@ -700,4 +757,93 @@ for nm, f in (('isgreater', o_isgreater), ('isgreaterequal', o_isgreaterequal), 
               ('islessequal', o_islessequal), ('islessgreater', o_islessgreater), ('isunordered', o_isunordered)):
     op(nm, 'vv', 'm', 'avel::%s({0}, {1})' % nm, lw(f), F, ['C13', 'C16'], scalar='avel::%s({0}, {1})' % nm)
 
+
+
+# ---- C16 mixed-signedness comparisons (scalar overloads only): compare the mathematical values
+def mixed_cmp(pred, unsigned_first):
+    def f(T, a, b):
+        w = T.bits
+        a = a[0] if isinstance(a, list) else a
+        b = b[0] if isinstance(b, list) else b
+        if unsigned_first:
+            x, y = sym.zext(a, w, w + 1), sym.sext(b, w, w + 1)
+        else:
+            x, y = sym.sext(a, w, w + 1), sym.zext(b, w, w + 1)
+        W2 = w + 1
+        return {'equal': lambda: sym.eq(x, y, W2), 'not_equal': lambda: sym.ne(x, y, W2), 'less': lambda: sym.slt(x, y, W2),
+                'less_equal': lambda: sym.sle(x, y, W2), 'greater': lambda: sym.sgt(x, y, W2), 'greater_equal': lambda: sym.sge(x, y, W2)}[pred]()
+    f.__name__ = 'mixed_cmp_%s_%s' % (pred, 'us' if unsigned_first else 'su')
+    return f
+
+
+for _p in ('equal', 'not_equal', 'less', 'less_equal', 'greater', 'greater_equal'):
+    op('cmp_%s_us' % _p, 'vw', 'b', None, mixed_cmp(_p, True), 'u', ['C16'], scalar='avel::cmp_%s({0}, {1})' % _p)
+    op('cmp_%s_su' % _p, 'wv', 'b', None, mixed_cmp(_p, False), 'u', ['C16'], scalar='avel::cmp_%s({0}, {1})' % _p)
+
+
+# =========================================================================== C17 conversions (pairs are discovered in the headers)
+def o_convert(dst_bits, src_signed):
+    def f(T, a):
+        w = T.bits
+        if dst_bits == w:
+            return a
+        if dst_bits < w:
+            return sym.trunc(a, w, dst_bits)
+        return sym.sext(a, w, dst_bits) if src_signed else sym.zext(a, w, dst_bits)
+    f.__name__ = 'o_convert_%d_%s' % (dst_bits, 's' if src_signed else 'u')
+    return f
+
+
+def register_conversions(repo=None):
+    import os, re
+    from .avtypes import BY_NAME as TYPES
+    repo = repo or os.environ.get('AVEL_REPO', '/repo')
+    vdir = os.path.join(repo, 'include', 'avel', 'impl', 'vectors')
+    pairs = set()
+    for fn in sorted(os.listdir(vdir)):
+        if fn.endswith('.hpp'):
+            for m in re.finditer(r'convert<(\w+), (\w+)>\(', open(os.path.join(vdir, fn)).read()):
+                pairs.add((m.group(1), m.group(2)))
+    have = {o.name for o in OPS}
+    for dst, src in sorted(pairs):
+        is_mask = dst.startswith('mask')
+        dn, sn = dst.replace('mask', 'vec'), src.replace('mask', 'vec')
+        if dn not in TYPES or sn not in TYPES:
+            continue
+        D, S_ = TYPES[dn], TYPES[sn]
+        if D.n != S_.n:
+            continue
+        if is_mask:
+            forms = (('convert', 'avel::convert<avel::%s>({0})[0]' % dst), ('ctor', 'avel::%s{{{0}}}' % dst))
+            for nm, ex in forms:
+                name = '%s__%s__from__%s' % (nm, dst, src)
+                if name not in have:
+                    op(name, 'm', 'M:' + dn, ex, lw(o_m_id), 'uif', ['C17'], only_types={sn}, dst=dn)
+        else:
+            forms = (('convert', 'avel::convert<avel::%s>({0})[0]' % dst), ('ctor', 'avel::%s{{{0}}}' % dst))
+            for nm, ex in forms:
+                name = '%s__%s__from__%s' % (nm, dst, src)
+                if name not in have:
+                    op(name, 'v', 'V:' + dn, ex, lw(o_convert(D.bits, S_.signed)), 'uif', ['C17'], only_types={sn}, dst=dn)
+        # bit_cast between types of identical representation
+        if D.bits == S_.bits and dst != src:
+            name = 'bit_cast__%s__from__%s' % (dst, src)
+            if name not in have:
+                if is_mask:
+                    op(name, 'm', 'M:' + dn, 'avel::bit_cast<avel::%s>({0})' % dst, lw(o_m_id), 'uif', ['C17'], only_types={sn}, dst=dn)
+                else:
+                    op(name, 'v', 'V:' + dn, 'avel::bit_cast<avel::%s>({0})' % dst, lw(o_id), 'uif', ['C17'], only_types={sn}, dst=dn)
+    # identity conversions of every type (the generic template)
+    for tn, T in sorted(TYPES.items()):
+        for is_mask in (False, True):
+            name = 'convert_identity__%s%s' % ('mask' if is_mask else 'vec', tn[3:])
+            if name in have:
+                continue
+            if is_mask:
+                op(name, 'm', 'M:' + tn, 'avel::convert<avel::%s>({0})[0]' % T.mask, lw(o_m_id), 'uif', ['C17'], only_types={tn}, dst=tn)
+            else:
+                op(name, 'v', 'V:' + tn, 'avel::convert<avel::%s>({0})[0]' % tn, lw(o_id), 'uif', ['C17'], only_types={tn}, dst=tn)
+
+
+register_conversions()
 BY_NAME = {o.name: o for o in OPS}
